@@ -98,17 +98,35 @@ Init ==
   /\ modules = << >> /\ execNR = FALSE /\ cb = << >> /\ ret = "SUCCESS"
   /\ nscans = 0 /\ nnr = 0
 
-Next ==
-  \/ /\ nscans < MaxScans /\ nscans' = nscans + 1 /\ UNCHANGED nnr
-     /\ \E f \in Files, fl \in FlagSets, to \in (IF WithTimeout THEN BOOLEAN ELSE {FALSE}), m \in {"mem", "blocks"} :
-          m \in ModeOf(f) /\ ScanFresh(f, fl, to, m)
-  \/ /\ UNCHANGED <<nscans, nnr>>
-     /\ \/ ScanResume \/ BlockTimeout \/ IterBlock \/ ScanBlock \/ BlockFails \/ BlockDone \/ IterNull \/ ImportSkip \/ ExecRule \/ ExecTimeout
-        \/ ExecEnd \/ ReportSkip \/ ExecNotReady
-        \/ \E r \in Replies : ImportModule(r) \/ ModuleImported(r) \/ ReportRule(r) \/ Finished(r)
-        \/ \E r \in Replies, i \in RuleIdx : TooMany(i, r)
-  \/ /\ cur.mode = "blocks" /\ nnr < MaxNotReady /\ nnr' = nnr + 1 /\ UNCHANGED nscans
-     /\ IterNotReady
+\* one named action per step kind, so that TLC's coverage output (-coverage) shows which ones a configuration exercises
+Same == UNCHANGED <<nscans, nnr>>
+MScanFresh == /\ nscans < MaxScans /\ nscans' = nscans + 1 /\ UNCHANGED nnr
+              /\ \E f \in Files, fl \in FlagSets, to \in (IF WithTimeout THEN BOOLEAN ELSE {FALSE}), m \in {"mem", "blocks"} :
+                   m \in ModeOf(f) /\ ScanFresh(f, fl, to, m)
+MScanResume == Same /\ ScanResume
+MBlockTimeout == Same /\ BlockTimeout
+MIterBlock == Same /\ IterBlock
+MScanBlock == Same /\ ScanBlock
+MBlockFails == Same /\ BlockFails
+MBlockDone == Same /\ BlockDone
+MIterNull == Same /\ IterNull
+MImportSkip == Same /\ ImportSkip
+MExecRule == Same /\ ExecRule
+MExecTimeout == Same /\ ExecTimeout
+MExecEnd == Same /\ ExecEnd
+MReportSkip == Same /\ ReportSkip
+MExecNotReady == Same /\ ExecNotReady
+MImportModule == Same /\ \E r \in Replies : ImportModule(r)
+MModuleImported == Same /\ \E r \in Replies : ModuleImported(r)
+MReportRule == Same /\ \E r \in Replies : ReportRule(r)
+MFinished == Same /\ \E r \in Replies : Finished(r)
+MTooMany == Same /\ \E r \in Replies, i \in RuleIdx : TooMany(i, r)
+MIterNotReady == /\ cur.mode = "blocks" /\ nnr < MaxNotReady /\ nnr' = nnr + 1 /\ UNCHANGED nscans
+                 /\ IterNotReady
+
+Next == \/ MScanFresh \/ MScanResume \/ MBlockTimeout \/ MIterBlock \/ MScanBlock \/ MBlockFails \/ MBlockDone \/ MIterNull \/ MImportSkip
+        \/ MExecRule \/ MExecTimeout \/ MExecEnd \/ MReportSkip \/ MExecNotReady \/ MImportModule \/ MModuleImported \/ MReportRule
+        \/ MFinished \/ MTooMany \/ MIterNotReady
 
 Spec == Init /\ [][Next]_mcvars
 
